@@ -1,18 +1,93 @@
 /-
-  C10 — property theorems (first milestone: definitional clauses; the Levinson theorems follow).
+  C10 — property theorems.  Only statements of the property, non-vacuity examples and the audit
+  live here; helper lemmas are in `ALV.Lemmas.C10*`.
+
+  `levinson r order = .ok (a, e)` reads: `levinson_durbin(r, order)` returns a filter with
+  `numerator = a` and `error = e` (no division by zero met).  `K` is any field.
 -/
-import ALV.Model.C10
-import ALV.Spec.C10
+import ALV.Lemmas.C10Lev
 import ALV.Common.Audit
 
 namespace ALV.Props.C10
 open ALV.C10
-variable {α : Type} [Add α] [Mul α] [Sub α] [Neg α] [Div α] [OfNat α 0] [OfNat α 1]
 
-/-- `toeplitz` is the table `T[j][i] = vect[|i−j|]` -/
+section tables
+variable {α : Type} [Add α] [Mul α] [OfNat α 0]
+
+/-- **C10.2a** `acorr(blk, L)` has L+1 entries (`len(blk)` entries for `max_lag=None`) … -/
+theorem acorr_length (blk : List α) (lag : Option Nat) :
+    (acorr blk lag).length = (match lag with | none => blk.length | some L => L + 1) := by
+  cases lag <;> simp [acorr]
+
+/-- … and entry tau is the documented sum `Σ_{n < N−tau} x[n]·x[n+tau]`. -/
+theorem acorr_entry (blk : List α) (lag : Option Nat) (tau : Nat) (h : tau < (acorr blk lag).length) :
+    (acorr blk lag)[tau] = acorrAt blk tau := by
+  simp [acorr, acorrAt]
+
+/-- **C10.2b** `lag_matrix(blk, L)` raises ValueError exactly when `L ≥ len(blk)` … -/
+theorem lagMatrix_raises_iff (blk : List α) (L : Nat) :
+    (∃ e, lagMatrix blk (some L) = .error e) ↔ blk.length ≤ L := by
+  unfold lagMatrix
+  by_cases h : L ≥ blk.length <;> simp [h]
+
+/-- … otherwise it is the (L+1)×(L+1) table whose row j, column i is `Σ_{n=L}^{N−1} x[n−i]·x[n−j]`. -/
+theorem lagMatrix_entry (blk : List α) (L : Nat) (hL : L < blk.length) :
+    ∃ t, lagMatrix blk (some L) = .ok t ∧ t.length = L + 1 ∧
+      ∀ i j, i ≤ L → j ≤ L → (t.getD j []).getD i 0 = lagAt blk L i j := by
+  refine ⟨lagTable blk L, ?_, by simp [lagTable], ?_⟩
+  · unfold lagMatrix; simp [Nat.not_le.2 hL]
+  · intro i j hi hj
+    simp [lagTable, lagAt, List.getD_eq_getElem?_getD, Nat.lt_succ_of_le hi, Nat.lt_succ_of_le hj]
+
+omit [Add α] [Mul α] in
+/-- **C10.2c** `toeplitz(v)` is the n×n table `T[j][i] = v[|i−j|]`. -/
 theorem toeplitz_entry (v : List α) (i j : Nat) (hi : i < v.length) (hj : j < v.length) :
     ((toeplitz v).getD j []).getD i 0 = coef v (adiff i j) := by
   simp [toeplitz, hi, hj, List.getD_eq_getElem?_getD]
+
+omit [Add α] [Mul α] in
+theorem toeplitz_length (v : List α) : (toeplitz v).length = v.length := by simp [toeplitz]
+
+end tables
+
+variable {K : Type} [Field K] [DecidableEq K]
+
+/-- the order `levinson_durbin` works with: `order`, or `len(r) − 1` for `None` -/
+def orderOf (r : List K) (order : Option Nat) : Nat := order.getD (r.length - 1)
+
+/-- **C10.1a** (normal equations).  Whenever `levinson_durbin(r, order)` returns — i.e. on every
+lag vector on which the recursion meets no zero divisor — for every order (also `order ≥ len(r)`,
+zero extension) the returned filter is monic, has at most `order+1` coefficients and satisfies
+`Σ_j a_j · r|i−j| = 0` for `i = 1..order`. -/
+theorem levinson_normal_eqs (r : List K) (order : Option Nat) (a : List K) (e : K)
+    (h : levinson r order = .ok (a, e)) : IsYuleWalker r a (orderOf r order) := by
+  cases order with
+  | none =>
+    obtain ⟨_, h1, _⟩ := levinson_none_ok h
+    exact IsYuleWalker_of_inv (levIter_inv r _ a h1)
+  | some p =>
+    obtain ⟨h1, _⟩ := levinson_some_ok h
+    exact IsYuleWalker_of_inv (levInv_zeroExt (levIter_inv _ p a h1))
+
+/-- **C10.1b** (true error).  The `error` attribute, computed by the code as `inner(A, A)`,
+equals `Σ_j a_j · r_j`. -/
+theorem levinson_error (r : List K) (order : Option Nat) (a : List K) (e : K)
+    (h : levinson r order = .ok (a, e)) : e = predError r a (orderOf r order) := by
+  cases order with
+  | none =>
+    obtain ⟨_, h1, h2⟩ := levinson_none_ok h
+    rw [h2, (levIter_inv r _ a h1).inner_self, predError_eq]; rfl
+  | some p =>
+    obtain ⟨h1, h2⟩ := levinson_some_ok h
+    have hinv := levIter_inv _ p a h1
+    rw [h2, hinv.inner_self, predError_eq]
+    exact Nf_congr_r _ _ _ _ _ (coef_zeroExt r p)
+
+/-- non-vacuity: the recursion returns on a non-trivial lag vector, with the documented values
+    (`levinson_durbin([1, 1/2, 1/4, 1/3], 3)`), and raises on a singular one -/
+example : levinson [(1 : Rat), 1/2, 1/4, 1/3] (some 3) = .ok ([1, -1/2, 5/36, -5/18], 299/432) := by decide +kernel
+example : levinson [(1 : Rat), 1, 1] (some 2) = .error "ParCorError" := by decide +kernel
+example : levinson [(2 : Rat), 1] (some 3) = .ok ([1, -3/4, 1/2, -1/4], 5/4) := by decide +kernel
 
 end ALV.Props.C10
 
